@@ -1566,9 +1566,9 @@ def find_arg_optimal(variable, relation, mode):
     this relation.
     """
     if mode == "min":
-        best_rel_val = get_data_type_max(DEFAULT_TYPE)
+        best_rel_val = float("inf")
     elif mode == "max":
-        best_rel_val = get_data_type_min(DEFAULT_TYPE)
+        best_rel_val = -float("inf")
     else:
         raise ValueError("Invalid optimization mode: " + mode)
 
@@ -1619,9 +1619,9 @@ def find_optimal(
         float
             The cost achieved with these values.
     """
-    arg_best, best_cost = None, float("inf")
+    arg_best, best_cost = [], float("inf")
     if mode == "max":
-        arg_best, best_cost = None, -float("inf")
+        arg_best, best_cost = [], -float("inf")
     for value in variable.domain:
         assignment[variable.name] = value
         cost = assignment_cost(assignment, constraints)
